@@ -96,6 +96,7 @@ pub fn random_cfg(rng: &mut Rng, n_keys: u16, n_meta: u8, dup: Option<bool>) -> 
         max_records: None,
         auto_rotate: false,
         bloom_flip: false,
+        max_blob_size: None,
     }
 }
 
@@ -118,6 +119,7 @@ pub fn add_stats(sh: &mut Shard, st: &Stats) {
     sh.add("disk_used_bounded_checks", st.disk_bounded);
     sh.add("offloaded_bytes", st.offloaded_bytes);
     sh.add("automatic_rotations_mirrored", st.auto_rotations);
+    sh.add("automatic_rotations_by_size", st.auto_rotations_by_size);
     sh.add("restarts_under_another_bloom_config", st.bloom_flips);
     sh.add("steps_over_limit_not_yet_rotated", st.overfull_steps);
     for a in st.abstract_states.iter() {
